@@ -133,6 +133,12 @@ func startWatchdog(curJ *int64, limit time.Duration) {
 				last, lastChange, lastCPU = h, time.Now(), processCPU()
 				continue
 			}
+			if noBeatPhase.Load() != 0 {
+				// C20's parallel modes: the goroutines under test must not touch anything shared, so
+				// nobody reports progress while they run (many threads, much CPU). Only the
+				// wall-clock limit applies until the phase is over.
+				lastCPU = processCPU()
+			}
 			if processCPU()-lastCPU > limit || time.Since(lastChange) > 10*limit {
 				fmt.Printf("{\"t\":\"hang\",\"j\":%d}\n", *curJ)
 				os.Exit(3)
